@@ -435,7 +435,7 @@ fn pf<F: FElem>(t: &str) -> F {
     }
 }
 
-pub trait Acc: Clone {
+pub trait Acc: Clone + Send + 'static {
     /// tokens per observation
     const OBS: usize;
     fn new() -> Self;
@@ -742,7 +742,17 @@ pub fn run_prog<S: Acc>(conf: Confidence, toks: &[String]) -> String {
                 i += 1;
             }
             "q" => {
-                out.push(guarded(|| st.last().unwrap().query(conf)));
+                let here = guarded(|| st.last().unwrap().query(conf));
+                // the same query on a copy of the state, asked on a fresh thread: a query is a function
+                // of the state and the confidence, not of what was asked before
+                let copy = st.last().unwrap().clone();
+                let fresh = std::thread::spawn(move || {
+                    std::panic::set_hook(Box::new(|_| {}));
+                    guarded(|| copy.query(conf))
+                })
+                .join()
+                .unwrap_or_else(|_| "panic thread".to_string());
+                out.push(format!("{} | {}", here, if fresh == here { "hist:same" } else { "hist:DIFFERS" }));
                 i += 1;
             }
             _ => panic!("bad token {}", toks[i]),
@@ -751,7 +761,7 @@ pub fn run_prog<S: Acc>(conf: Confidence, toks: &[String]) -> String {
     // the batch computation over everything the final state was fed, in delivery order
     let all = data.last().cloned().unwrap_or_default();
     out.push("B".to_string());
-    out.push(guarded(|| S::from_iter(&all).query(conf)));
+    out.push(format!("{} | hist:same", guarded(|| S::from_iter(&all).query(conf))));
     out.join(" | ")
 }
 
